@@ -13,15 +13,15 @@ from . import constraints_lib as cl
 TEXT_POOL = ['', 'a', 'abc', 'ABC', 'a b', ' lead', 'trail ', 'tab\there', 'new\nline', "quo'te", 'dq"uote', 'back\\slash',
              'é', 'ü', 'ñandú', '☃', '\U0001F600', 'x\U0001F600y', '中文', 'ß', 'ǅ', '٣', '²', 'a.b', 'a-b', 'a_b',
              '12', '007', '1.5', '-3', '+', '^', '$', '.*', '[x]', '(y)', '{z}', 'a|b', '?', '*', '#', '%',
-             'CamelCase', 'snake_case', 'kebab-case', 'x' * 40, ' ', ' ', 'NULL', 'None', 'nan', 'true']
+             'row{2}', 'item{10}', 'a{3}', 'CamelCase', 'snake_case', 'kebab-case', 'x' * 40, ' ', ' ', 'NULL', 'None', 'nan', 'true']
 
 FIELD_NAMES = ['a', 'B', 'col 1', 'naïve', 'x.y', 'f-1', '1', 'select', "it's", 'dq"', 'uni☃', 'n_failures',
-               'Index', 'a_min_ok', 'id', 'cafe\u0301', 'e\u0301te\u0301', '\ufeffid']
+               'Index', 'a_min_ok', 'id', 'cafe\u0301', 'e\u0301te\u0301', '\ufeffid', ' id', 'amount ', 'note\t']      # (also names with blanks at their ends)
 
 
 def rich_series(rnd, n, kind=None):
     """A column of a recognised type; returns (series, kind label)."""
-    kinds = ['int64', 'uint8', 'Int64', 'float64', 'float_special', 'Float64', 'bool', 'boolean', 'objbool',
+    kinds = ['int64', 'uint8', 'Int64', 'float64', 'float32', 'float_special', 'Float64', 'bool', 'boolean', 'objbool',
              'object_str', 'category', 'dt_ns', 'dt_s', 'dt_ms', 'dt_us', 'dt_tz', 'dateobj', 'int_extreme',
              'allnull_float', 'allnull_obj', 'many_cats', 'longtext']
     kind = kind or rnd.choice(kinds)
@@ -43,6 +43,9 @@ def rich_series(rnd, n, kind=None):
                                                   # values whose shortest exact text needs 16-17 significant digits
                                                   0.1 + 0.2, -0.7999999999999999, 1 / 3, 2 / 3 * 1e9]) for _ in range(n)], np.nan),
                          dtype='float64'), kind
+    if kind == 'float32':
+        # single precision: the values of the column are what float32 holds (0.1f is not 0.1)
+        return pd.Series(mask([rnd.choice([0.1, 2.3, -7.7, 1e-3, 3.0, 1 / 3]) for _ in range(n)], np.nan), dtype='float32'), kind
     if kind == 'float_special':
         pool = [np.inf, -np.inf, 1e308, -1e308, 5e-324, 0.0, -0.0, 1.0, np.nan]
         return pd.Series([rnd.choice(pool) for _ in range(n)], dtype='float64'), kind
